@@ -349,13 +349,22 @@ def run(ck, only=None):
                 ("inline+wrap", ["--generate-inline-functions"])]
         if ck.tier != "thorough":
             rows = rows[:2] + [rows[2 + ck.seed % 2]]
+        # targets whose object format decorates symbols or whose default conventions differ (only the calling conventions: the
+        # other attributes do not interact with the target), plus an ABI override on top
+        trows = [("darwin64", ["--", "--target=x86_64-apple-darwin"]), ("darwin32", ["--", "--target=i386-apple-darwin"]), ("win32", ["--", "--target=i686-pc-windows-msvc"]),
+                 ("win64", ["--", "--target=x86_64-pc-windows-msvc"]), ("aarch64", ["--", "--target=aarch64-unknown-linux-gnu"]),
+                 ("darwin64+override", ["--override-abi", "f|g|take|use|declared_through_typedef=stdcall", "--", "--target=x86_64-apple-darwin"]),
+                 ("win32+override", ["--override-abi", "f|g|take|use|declared_through_typedef=fastcall", "--", "--target=i686-pc-windows-msvc"])]
+        if ck.tier != "thorough":
+            trows = [r for k, r in enumerate(trows) if k in (0, 1, 2, 5)]
+        ncc = 16   # the first 16 entries of ccs are calling conventions
         jobs, info = [], {}
         for ai, a in enumerate(ccs):
             for sname, text in shapes.items():
                 ext = ".hpp" if sname.endswith(".hpp") else ".h"
                 p = os.path.join(wd, f"attr_{ai}_{sname.replace('.hpp', '')}{ext}")
                 open(p, "w").write(text.replace("@A@", a))
-                for rname, fl in rows:
+                for rname, fl in rows + (trows if ai < ncc else []):
                     if only and (only.get("attr") != a or only.get("shape") != sname or only.get("row") != rname):
                         continue
                     pre = [x for x in fl if "--" not in fl or fl.index(x) < fl.index("--")]
@@ -369,6 +378,14 @@ def run(ck, only=None):
         nacc = 0
         for jid, (p, a, sname, rname, cargs) in info.items():
             acc, msg = klass[jid]
+            if acc is True and res[jid]["status"] == "crash" and sname == "method.hpp":
+                # -fsyntax-only never mangles a name; bindgen asks libclang for the mangled names. If clang itself crashes when it
+                # has to mangle these methods for this target, the input is outside the quantifier like any other clang crash
+                up = p + ".use.cc"
+                open(up, "w").write(f'#include "{p}"\nvoid u(C *c) {{ c->m(1); C::s(); }}\n')
+                rc2, _, err2 = common.clang(cargs + ["-S", "-emit-llvm", "-o", "/dev/null", up], cwd=wd, timeout=60)
+                if rc2 not in (0, 1) or "PLEASE submit a bug report" in err2:
+                    acc, msg = "oracle-crashed", "clang itself crashes when it mangles these declarations"
             nacc += acc is True
             ck.count()
             ck.nontriv(jid)
@@ -398,6 +415,8 @@ struct UsesTE { TE<int> a; };
         open(hp_c, "w").write(rich_c)
         open(hp_cpp, "w").write(rich_cpp)
         rows = [r for r in c13.rows() if r["name"] not in ("represent-cxx-operators", "use-distinct-char16-t") and not any(x in r["name"] for x in ("depfile", "wrap-static", "emit-ir", "rustfmt-conf"))]
+        # the regex values that only exist to carry list separators (C13's subject) and the repeated-flag rows add nothing to a panic search
+        rows = [r for r in rows if "{1,2}" not in r["name"] and "{1,1}" not in r["name"] and not r["name"].endswith("-repeated-descending")]
         pairs = [(a, b) for i, a in enumerate(rows) for b in rows[i + 1:]]
         if ck.tier != "thorough":
             # options about one subject interact most: every pair inside a subject group is always run
